@@ -862,9 +862,13 @@ def _(cx, r):
         v = np.asarray(est, dtype=float)
         return None if (v == 0).all() else \
             f"estimates after reset_estimates are not zero: {dict(est[est != 0])}"
+    m = _est_model(cx, r)
+    x = r.standard_normal(m.n_states) * 1e-3
+    # whatever was accumulated before (here: one more update), a reset clears all of it
     return Call('inertial_sensor.EstimationModel.reset_estimates',
-                lambda s: (s.reset_estimates(), s.get_estimates())[1],
-                [Arg(_est_model(cx, r), 'self')], schema=(all_zero,))
+                lambda s, x_: (s.update_estimates(x_), s.reset_estimates(),
+                               s.get_estimates())[2],
+                [Arg(m, 'self'), Arg(x, 'plain')], schema=(all_zero,))
 
 
 @template('inertial_sensor.EstimationModel.get_estimates')
